@@ -262,3 +262,34 @@ Arguments RUnknownRpc {R}.
 Arguments RLocked {R}.
 Arguments OMethod {A T}.
 Arguments OSetLock {A T}.
+
+(* ---- several objects in one process ------------------------------------------------------------------
+   Each RPC object has its own worker (_RpcThread) and therefore its own state; a request is delivered to
+   the worker of the object it is addressed to (index in the list).  Nothing is shared between workers. *)
+Section System.
+  Variables (A R T : Type).
+  Variable teqb : T -> T -> bool.
+  Variable behave : cls -> name -> A -> list name -> list name * R.   (* per class *)
+
+  Definition object := (cls * wstate A T)%type.
+
+  Fixpoint sys_step (s : list object) (i : nat) (o : op A T) : list object * option (option (reply R)) :=
+    match s with
+    | [] => ([], None)                         (* no such object: nothing is delivered *)
+    | (c, st) :: r =>
+        match i with
+        | O => let '(st', x) := step A R T teqb c (behave c) st o in ((c, st') :: r, Some x)
+        | S i' => let '(r', y) := sys_step r i' o in ((c, st) :: r', y)
+        end
+    end.
+
+  Fixpoint sys_run (s : list object) (l : list (nat * op A T)) : list object * list (option (option (reply R))) :=
+    match l with
+    | [] => (s, [])
+    | (i, o) :: r => let '(s1, x) := sys_step s i o in let '(s2, xs) := sys_run s1 r in (s2, x :: xs)
+    end.
+
+  (* the verdict on a method request, as seen in the reply *)
+  Definition reply_verdict (r : reply R) : option verdict :=
+    match r with RResult _ => Some Accept | RUnknownRpc v => Some v | RLocked => None end.
+End System.
